@@ -90,8 +90,11 @@ Definition matches (T : ts) (k : key) : bool :=
 Definition evs_for (T : ts) (evs : list ev) : list ev :=
   filter (fun e => matches T (e_key e)) evs.
 
-(* one raft apply: index, events, and the secret IDs of the closeSubscription event *)
-Record batch := Batch { b_idx : N; b_evs : list ev; b_close : list N }.
+(* one raft apply: index, the events computed from the change set (ServiceHealthEventsFromChanges,
+   ConfigEntryEventsFromChanges), the secret IDs of the closeSubscription event
+   (aclChangeUnsubscribeEvent), and [b_silent]: the part of the change of the query results that no
+   event of the batch announces (empty when the event computation is right) *)
+Record batch := Batch { b_idx : N; b_evs : list ev; b_close : list N; b_silent : list ev }.
 
 Inductive item :=
 | IEv (idx : N) (evs : list ev)
@@ -151,7 +154,7 @@ Inductive label :=
 | LSubscribe (c : N) (T : ts) (tok : N) (rpc : bool) (qidx : N)
 | LNext (c : N)
 | LUnsub (c : N)
-| LRestore (rows : amap)
+| LRestore (rows : amap) (hi : N)             (* hi: the raft index after installing the snapshot *)
 | LEvict (T : ts).
 
 Inductive out :=
@@ -210,7 +213,7 @@ Definition buf_items (T : ts) (l : list tbuf) : list item :=
 (* ------------------------------------------------------------------ commit / publish *)
 
 Definition do_commit (st : state) (b : batch) : state :=
-  State (apply (b_evs b) (st_store st)) (st_queue st ++ [b]) (st_bufs st) (st_cache st)
+  State (apply (b_evs b ++ b_silent b) (st_store st)) (st_queue st ++ [b]) (st_bufs st) (st_cache st)
         (st_clients st) (st_cache_on st)
         (b_idx b) (st_log st ++ [b]) (st_base st) (st_epoch st).
 
@@ -443,12 +446,12 @@ Definition force_close (x : client) : client :=
 
 (* fsm.Restore: the store is replaced; RefreshAllTopics evicts every cached snapshot and force-closes
    every subscription.  Topic buffers and the publish queue are NOT touched. *)
-Definition do_restore (st : state) (rows : amap) : state :=
+Definition do_restore (st : state) (rows : amap) (hi : N) : state :=
   State rows (st_queue st)
         (map (fun b => TBuf (tb_ts b) (tb_refs b) (tb_items b) true) (st_bufs st))
         []
         (map (fun cx => (fst cx, force_close (snd cx))) (st_clients st))
-        (st_cache_on st) (st_hi st) [] rows (N.succ (st_epoch st)).
+        (st_cache_on st) (N.max (st_hi st) hi) [] rows (N.succ (st_epoch st)).
 
 Definition do_evict (st : state) (T : ts) : state :=
   State (st_store st) (st_queue st) (st_bufs st) (del_snap T (st_cache st)) (st_clients st)
@@ -461,7 +464,7 @@ Definition step (st : state) (l : label) : state * out :=
   | LSubscribe c T tok rpc qidx => do_subscribe st c T tok rpc qidx
   | LNext c => do_next st c
   | LUnsub c => do_unsub st c
-  | LRestore rows => (do_restore st rows, ONone)
+  | LRestore rows hi => (do_restore st rows hi, ONone)
   | LEvict T => (do_evict st T, ONone)
   end.
 
@@ -501,9 +504,19 @@ Definition step_ok (st : state) (l : label) : bool :=
   | LCommit b => N.ltb (st_hi st) (b_idx b)
   | LSubscribe c T _ _ qidx =>
       let T' := sub_ts st c T in
-      forallb (fun b => negb (touches T' b) || N.leb (b_idx b) qidx) (st_log st)
-      && N.leb qidx (st_hi st)
-  | LRestore rows => sorted_keys rows
+      match snd T', wild_ok (fst T') with
+      | None, false => true            (* Subscribe fails before any query is made *)
+      | _, _ => forallb (fun b => negb (touches T' b) || N.leb (b_idx b) qidx) (st_log st)
+                && N.leb qidx (st_hi st)
+      end
+  | LRestore rows _ => sorted_keys rows
+  | _ => true
+  end.
+
+(* the events of every batch describe the whole change of the query results *)
+Definition events_ok (st : state) (l : label) : bool :=
+  match l with
+  | LCommit b => match b_silent b with [] => true | _ => false end
   | _ => true
   end.
 
@@ -529,7 +542,7 @@ Definition gapfree_ok (st : state) (l : label) : bool :=
    outlived a restore" *)
 Definition restore_ok (st : state) (l : label) : bool :=
   match l with
-  | LRestore _ => match st_queue st with [] => true | _ => false end
+  | LRestore _ _ => match st_queue st with [] => true | _ => false end
   | LSubscribe c T _ _ _ =>
       let st1 := pre_sub_state st c in
       match find_buf (sub_ts st c T) (st_bufs st1) with
@@ -551,7 +564,7 @@ Fixpoint all_from (ok : state -> label -> bool) (st : state) (ls : list label) :
 Definition log_upto (i : N) (log : list batch) : list batch :=
   filter (fun b => N.leb (b_idx b) i) log.
 
-Definition all_evs (log : list batch) : list ev := flat_map b_evs log.
+Definition all_evs (log : list batch) : list ev := flat_map (fun b => b_evs b ++ b_silent b) log.
 
 Definition content_at (st : state) (T : ts) (i : N) (k : key) : option N :=
   if matches T k then aget k (apply (all_evs (log_upto i (st_log st))) (st_base st)) else None.
